@@ -25,6 +25,9 @@ CLAIMED = {
     "C09": ("schedule exploration on a deterministic-scheduler ExecModel (generated dense schedules + bounded line-level preemption; exhaustive single line-preemption of small scenarios); generated pool scenarios with a counting oracle",
             "Generated pool scenarios (spawners, tasks that return/raise/block, racing trigger_shutdown/terminate, waitall and timed get callers, integrated primary thread, both thread backends) run on the real WorkerPool with every lock/event/queue/thread operation as a generated scheduling point and optional preemption at source lines; the oracle counts executions per accepted task, compares reply values and exception identity, checks waitall/terminate truthfulness against the set of tasks accepted before the call and treats a decided 'blocks forever' as a violation. Small scenarios get every single line-preemption enumerated. remote_exec followed by exit() is checked on an in-process gateway pair.",
             "Sampling of schedules except the exhaustive single-preemption slices. The scheduler serialises real threads at real operations (legal CPython executions only); primitives are differentially self-tested each run; virtual time.", "3/C09"),
+    "C02": ("model-based conversation programs on an in-process gateway pair under a deterministic scheduler (generated bounded-preemption schedules, line-level preemption, strided/exhaustive single preemption), scripted transports with generated chunking; transcript oracle; real-thread cross-check",
+            "Generated multi-channel, multi-thread conversation programs are executed with both gateway ends in one process on a scheduler that owns every lock/event/queue/thread/transport operation; the transcript oracle derives from the program alone what every consumer must have seen (multiset, per-sender order, exact sequence for single consumers, no foreign items). The same programs run on real popen workers with payloads up to 300 KB (quick) / 4 MB (thorough).",
+            "Sampling of schedules; single-preemption slices are complete only in the thorough tier. Scheduler fidelity is self-tested per shard. Cross-sender order is not asserted.", "3/C02"),
 }
 
 NOT_APPLICABLE = {}
